@@ -153,6 +153,10 @@ def any_spec(draw):
     if draw(st.integers(0, 4)) == 0:
         opts["f"] = draw(st.lists(st.sampled_from(["session.py", "main.py", "quic_session.py", "x"]), min_size=1, max_size=2))
     sc = {"conns": conns, "order": draw(st.lists(st.integers(0, 5), min_size=1, max_size=8)), "tseed": draw(st.integers(1, 500)), "opts": opts}
+    # captures on several interfaces, the first of which may be a non-Ethernet one without packets (the output is Ethernet whatever the input's first interface is)
+    cont = draw(st.sampled_from([None, None, None, {"idle_first": 0}, {"idle_first": 113}, {"ifaces": 2}, {"ifaces": 3, "late_idb": True, "idle_first": 0}]))
+    if cont:
+        sc["container"] = cont
     if draw(st.integers(0, 3)) == 0:
         sc["drop_keys"] = draw(st.lists(st.integers(0, 12), min_size=1, max_size=6))
     return sc
